@@ -6,7 +6,7 @@ from vlib.gens import *
 GROUP = "mem"
 LEAN_PROPS = "Dashu.Props.C17"
 LEAN_AUDIT = "Dashu.Audit.C17"
-GEN_PROPS = ["Dashu.Props.C17Link"]     # link theorems to C12 (Lehmer kernel of the gcd skeleton) and C07 (DigitWriter)
+GEN_PROPS = ["Dashu.Props.C17Link"]     # link theorems to C12 (gcd / gcd_ext kernels of the skeletons, no-panic) and C07 (DigitWriter)
 GEN_AUDIT = ["Dashu.Audit.C17Link"]
 USES_GEN = True          # Buffer::default_capacity / max_compact_capacity are regenerated (Dashu.Gen.Misc)
 JOBS = 12
@@ -31,9 +31,14 @@ THEOREMS = [P + t for t in [
     "skeleton_ops_ok_round4b", "skeleton_ops_ok_sqrt_rem", "max_layout_serves_each", "skeleton_ops_ok_ibig_bits",
     "skeleton_ops_ok_round5", "gcd_skeleton_value_is_c12_loop", "sqrt_leftover_is_kernel_state",
     "scratch_formulas_regenerated", "memory_end_does_not_wrap",
-    "skeleton_ops_ok_round6", "euclid_fix_sub_no_panic"]] + [
+    "skeleton_ops_ok_round6", "euclid_fix_sub_no_panic",
+    "div_skeletons_panic_only_on_zero_divisor", "div_panic_spec_unfold"]] + [
     "Dashu.Props.C17Link." + t for t in ["gcd_skeleton_kernel_is_c12", "rawToAscii_ascii", "digit_writer_all_writes_in_bounds",
-                                         "digit_writer_write_keeps_len"]]
+                                         "digit_writer_write_keeps_len",
+                                         "gcd_large_skeleton_no_panic", "gcd_skeleton_panics_only_on_zero_zero",
+                                         "gcd_ext_skeleton_kernel_is_c12", "gcd_ext_large_skeletons_no_panic",
+                                         "gcd_ext_skeleton_panics_only_on_zero_zero",
+                                         "mixed_gcd_skeleton_panics_only_on_zero_zero"]]
 
 REFINED = [
     "buffer.rs: allocate_raw(97) deallocate_raw(111) reallocate_raw(148) push(209) push_repeat(235) push_zeros_front(266) "
@@ -137,6 +142,17 @@ FRONTIER = [
     "pow_word_base / pow_dword_base: that the single result buffer never reallocates (`// actually never resize`) is proved for the "
     "word and dword bases as a bound on the tracked length (pow_word_base_never_resizes, pow_dword_base_never_resizes; not as a total-correctness statement about the op sequence) and observed (no realloc event in the "
     "compared streams); pow_word_base's power-of-two arms (set_bit) are unreachable from UBig::pow and not modelled",
+    "that a storage skeleton never hits an internal assert / model-panic arm is PROVED only for: Gcd::gcd and ExtendedGcd::gcd_ext of "
+    "UBig, IBig and the mixed UBig/IBig pairs, all forms, any operand words (round 7, Props/C17Link gcd_skeleton_panics_only_on_zero_zero, "
+    "gcd_ext_skeleton_panics_only_on_zero_zero, mixed_gcd_skeleton_panics_only_on_zero_zero: the only panic is the documented gcd(0, 0); "
+    "link to C12's gcdPrim_spec / lehmerGcd_correct / xgcdPrimWide_spec / gcdExtSmall_spec / lehmerExt_correct; gcd_ext_large's kernel "
+    "lehmerExtKernel totalises C12's lehmerExt — gcd_ext_skeleton_kernel_is_c12 shows that arm dead for 0 < rhs < lhs, i.e. for canonical "
+    "large operands; for NON-canonical zero operands of > 2 words the model uses the totalised value, a state the real code cannot be in), "
+    "the division skeletons UBig / % div_rem and IBig div_euclid / rem_euclid / div_rem_euclid (round 7, Props/C17 "
+    "div_skeletons_panic_only_on_zero_divisor, lemmas in Proofs/Mem/DivPanic.lean: only divideByZero, never for a non-zero divisor, always "
+    "for an inline zero divisor; all forms, signs, operand words), "
+    "the Euclidean fix-up subtraction (euclid_fix_sub_no_panic) and the pow result-buffer length bound; for the other skeletons "
+    "(add/sub underflow arm, sqrt, pow and shift allocation arms, bit ops) it is observed in the compared streams, not proved",
     "allocation failure (null from alloc/realloc) is not modelled: the allocator is assumed to succeed",
     "value-level histories of the public API (mem.val) are EXPLORATION: values against Int arithmetic and the layout invariant "
     "observed through repr_info after every step; the kernels between Repr and Buffer (add/mul/div/shift/...) are other "
@@ -179,7 +195,7 @@ EXPLANATION = ("PROVED (Lean, all histories by induction over the op list, all M
                "modelled unsafe block (unsafe_<file>_<line>); bump-allocator slices aligned, inside, pairwise disjoint; memory.rs layout "
                "arithmetic valid, MemoryAllocation::new's too-much arm dead, add_layout sufficient for its consumers; the pow result "
                "buffer's length bound; scratch sizes = regenerated formulas; the gcd skeleton's kernel = C12's loop and always "
-               "returns the gcd; DigitWriter in bounds + ASCII for all write sequences (link to C07). "
+               "returns the gcd, so the gcd skeletons (UBig, IBig, all forms, any operand words) panic only on the documented gcd(0, 0) (gcd_skeleton_panics_only_on_zero_zero), likewise gcd_ext and the mixed UBig/IBig pairs (gcd_ext_skeleton_panics_only_on_zero_zero, mixed_gcd_skeleton_panics_only_on_zero_zero; kernel = C12's lehmerExt, gcd_ext_skeleton_kernel_is_c12); the division skeletons (UBig / % div_rem, IBig Euclidean family) panic only with divideByZero and only on a zero divisor (div_skeletons_panic_only_on_zero_divisor); DigitWriter in bounds + ASCII for all write sequences (link to C07). "
                "static-backed values read-only; shift.rs/primitive.rs block obligations; every mirrored public operation (see REFINED) is a history over the "
                "proved op alphabet, so canonical results incl. the compactness bound hold after arithmetic whatever the kernels write "
                "(arithmetic_histories_keep_invariant, invariant_says_canonical). "
@@ -214,7 +230,11 @@ LEVEL_TEXT = ("Machine-checked Lean 4 theorems over an executable ledger model o
               "bounds/lifetime (aliasing, transmute validity, uninitialised reads) is not decided by proof; nth_root (n >= 3), parsing/printing, "
               "and the primitive-operand forms other than `UBig op u64|u128` are covered only through their final from_buffer and explored by "
               "value-level histories with invariant checks and by Miri runs of the same histories; that a skeleton never hits an "
-              "internal assert is observed, not proved (except the pow result-buffer length bound).")
+              "internal assert is observed, not proved (except: the gcd and gcd_ext skeletons of UBig / IBig / mixed pairs panic only on the "
+              "documented gcd(0, 0) — theorems gcd_skeleton_panics_only_on_zero_zero, gcd_ext_skeleton_panics_only_on_zero_zero, "
+              "mixed_gcd_skeleton_panics_only_on_zero_zero by link to C12's kernels —, the division skeletons of UBig and IBig's Euclidean family panic only with "
+              "divideByZero and only for a zero divisor (div_skeletons_panic_only_on_zero_divisor), the Euclidean fix-up subtraction, the pow "
+              "result-buffer length bound).")
 LEVEL_NOTE = ("Trusted: Lean kernel; axioms propext/Classical.choice/Quot.sound; vlib/extract.py for the two policy formulas; the "
               "harness incl. its counting allocator, the history generators (sampling) for the tie model<->code; Miri (support "
               "only). Not modelled: zeroize paths, Send/Sync impls, allocation failure; MemoryAllocation::new/Drop only as the scratch "
